@@ -15,7 +15,7 @@ package pkg
 //@   ensures [C09:same-as-validate-compiles] result1 == compileErr(profileText) && (result1 == nil ==> result0 != nil && deref(result0) == compiledQuery(profileText))
 
 //@ func Validate(profileText string, jsonldText string, debug bool, eventChan *chan e.Event) (string, error)
-//@   verify [C03,C12,C14]
+//@   verify [C03,C12,C14,C06]
 //@   requires [C04:not-yet] !ldRejected
 //@   ensures [C04:jsonld-rejected-no-verdict] ldRejected ==> (result1 != nil && result0 == "")
 //@   requires [C08:not-yet] !opaRejected && !opaEvaluated
@@ -25,7 +25,7 @@ package pkg
 //@   ensures [C04:no-verdict] !jsonTextValid(jsonldText) ==> (result1 != nil && result0 == "")
 
 //@ func ValidateCompiled(compiledRegoPtr *rego.PreparedEvalQuery, jsonldText string, debug bool, eventChan *chan e.Event) (string, error)
-//@   verify [C03,C12,C14]
+//@   verify [C03,C12,C14,C06]
 //@   requires compiledRegoPtr != nil
 //@   requires [C04:not-yet] !ldRejected
 //@   ensures [C04:jsonld-rejected-no-verdict] ldRejected ==> (result1 != nil && result0 == "")
@@ -34,7 +34,7 @@ package pkg
 //@   ensures [C04:no-verdict] !jsonTextValid(jsonldText) ==> (result1 != nil && result0 == "")
 
 //@ func ValidateWithConfiguration(profileText string, jsonldText string, debug bool, eventChan *chan e.Event, validationConfig c.ValidationConfiguration, reportConfig c.ReportConfiguration) (string, error)
-//@   verify [C03,C12,C14]
+//@   verify [C03,C12,C14,C06]
 //@   requires validationConfig != nil
 //@   requires [C04:not-yet] !ldRejected
 //@   ensures [C04:jsonld-rejected-no-verdict] ldRejected ==> (result1 != nil && result0 == "")
@@ -46,7 +46,7 @@ package pkg
 //@   ensures [C09:equivalent-to-precompiled] compileErr(profileText) == nil ==> (result0 == libCompiledReport(compiledQuery(profileText), jsonldText, validationConfig, reportConfig) && result1 == libCompiledReportErr(compiledQuery(profileText), jsonldText, validationConfig, reportConfig))
 
 //@ func ValidateCompiledWithConfiguration(compiledRegoPtr *rego.PreparedEvalQuery, jsonldText string, debug bool, eventChan *chan e.Event, validationConfig c.ValidationConfiguration, reportConfig c.ReportConfiguration) (string, error)
-//@   verify [C03,C12,C14]
+//@   verify [C03,C12,C14,C06]
 //@   requires compiledRegoPtr != nil && validationConfig != nil
 //@   requires [C04:not-yet] !ldRejected
 //@   ensures [C04:jsonld-rejected-no-verdict] ldRejected ==> (result1 != nil && result0 == "")
